@@ -510,8 +510,13 @@ func (vt *Model) print(seq ansi.Print) {
 	default:
 		vt.cursor.col += column(w)
 	}
-	if vt.cursor.col >= vt.margin.right+1 && vt.mode.decawm {
-		vt.lastCol = true
+	if vt.cursor.col >= vt.margin.right+1 {
+		// The cursor stays in the last column. The wrap is deferred until
+		// the next character is printed
+		vt.cursor.col = vt.margin.right
+		if vt.mode.decawm {
+			vt.lastCol = true
+		}
 	}
 }
 
